@@ -258,6 +258,12 @@ def removeDots (path : Str) : Str :=
   | '/' :: r => '/' :: joinSlash (dotSegs [] (splitOnSlash r))
   | _ => path
 
+/-- the path of a URI with an authority is empty or begins with "/" -/
+def rooted (host path : Str) : Str :=
+  match host, path with
+  | _ :: _, c :: _ => if c = '/' then path else '/' :: path
+  | _, _ => path
+
 /-- normal form of (scheme, authority, path, query); fragment and userinfo are not part of it.
     Percent-encoding is normalised first ("%2E" is a dot), then dot segments are removed. -/
 def urlNorm (scheme host path query : Str) : Str :=
@@ -265,7 +271,10 @@ def urlNorm (scheme host path query : Str) : Str :=
   let (h, p) := splitAuthority host
   let p := if p = schemeDefaultPort s then [] else p
   let auth := if p.isEmpty then lowerASCII h else lowerASCII h ++ [':'] ++ p
-  let path := removeDots (pctNorm path)
+  -- a URI with an authority has a path that is empty or begins with "/" (RFC 3986 §3.3). A url.URL value can
+  -- carry a host and a path without the slash (URL.JoinPath on a base without a path): the URI it stands for is
+  -- the one url.URL.String writes, with the slash between authority and path
+  let path := removeDots (pctNorm (rooted host path))
   let path := if path.isEmpty then ['/'] else path
   s ++ (str% "://") ++ auth ++ path ++ (if query.isEmpty then [] else '?' :: pctNorm query)
 
